@@ -146,6 +146,14 @@ def judge_row(row, depths):
     bad_exc = {d: v for d, v in vals.items() if isinstance(v, str) and v not in ("INVALID", "ValueError")}
     if bad_exc:
         return "internal-error", f"{bad_exc}"
+    # growth by a constant factor per two levels (period-2 families double every second level):
+    # a polynomial of degree <= 3 has (d+2)/d ratios below 1.9 at the last step
+    ds = sorted(nums)
+    if len(ds) >= 3 and ds[-1] - ds[-2] == 2 and ds[-2] - ds[-3] == 2 and nums[ds[-3]] >= 20:
+        r1 = nums[ds[-2]] / nums[ds[-3]]
+        r2 = nums[ds[-1]] / nums[ds[-2]]
+        if r1 >= 1.9 and r2 >= 1.9:
+            return "exponential", f"rebuild calls keep growing by a constant factor: depth {ds[-3]} -> {nums[ds[-3]]}, {ds[-2]} -> {nums[ds[-2]]}, {ds[-1]} -> {nums[ds[-1]]} (calls per depth: {nums})"
     pairs = [(d, 2 * d) for d in nums if 2 * d in nums and d >= 4]
     for d, d2 in sorted(pairs, reverse=True)[:2]:
         if nums[d] > 0 and nums[d2] > 16 * nums[d]:
@@ -180,7 +188,7 @@ def run(prop: str, tier: str) -> core.Report:
     cov["growth_shapes"] = dict(classes)
     cov["growth_samples"] = {k: table[k] for k in list(sorted(table))[:: max(1, len(table) // 8)]}
     cov["samples"] = list(a.coverage["samples"])[:4] + [g.render(nest(c, 4, INNERMOST[i], newline=i.endswith("-nl"))) for n, c, i in core.pick_samples(fams, 3)]
-    return core.Report(prop="C20", level="exploration", coverage=cov, failures=fl, assumptions=a.assumptions + ["growth is judged on the count of rebuild() invocations obtained by wrapping every rebuild method from the harness (wall time is reported, not judged)", "polynomial = calls(2d) <= 16 * calls(d) for the two largest measured pairs, and no case above the cap"])
+    return core.Report(prop="C20", level="exploration", coverage=cov, failures=fl, assumptions=a.assumptions + ["growth is judged on the count of rebuild() invocations obtained by wrapping every rebuild method from the harness (wall time is reported, not judged)", "polynomial = calls(2d) <= 16 * calls(d) for the two largest measured pairs, the last two step-2 ratios not both >= 1.9, and no case above the cap"])
 
 
 def replay(case, prop):
